@@ -30,7 +30,7 @@ GROUP = dict(
     jobs=[
         dict(id='C20.appender.keep_writing', enforce='AsyncFileAppender_keep_writing', replace=['AsyncFileAppender_write_use_plain_writev', 'AsyncFileAppender_keep_writing_lambda_async_file_appender_keep_writing_1_op_call'],
              loops=True, backend='cadical', defines=['VF_KEEP_WRITING 1', 'VF_POP_LAMBDA 1'], timeout=900, object_bits=10, covers=['g_rounds >= 2 && g_closes >= 1 && g_round_dsz >= 2']),
-        dict(id='C20.appender.discard', enforce='AsyncFileAppender_discard', loops=True, backend='cadical', covers=['g_in > 2000 && g_f < g_in && g_f > 1000']),
+        dict(id='C20.appender.discard', enforce='AsyncFileAppender_discard', loops=True, backend='cadical', timeout=600, covers=['g_in > 2000 && g_f < g_in && g_f > 1000']),
         dict(id='C20.appender.destination', enforce='AsyncFileAppender_destination', backend='cadical', covers=['g_fidx == (size_t)-1 && g_dsz > 5', 'g_fidx != (size_t)-1 && g_fidx > 3']),
         dict(id='C20.appender.pop', enforce='AsyncFileAppender_keep_writing_lambda_async_file_appender_keep_writing_1_op_call', replace=['AsyncFileAppender_destination'], loops=True, backend='cadical', defines=['VF_POP_LAMBDA 1'], covers=['g_qn > 1000 && g_stop_at < g_qn && g_stop_at > 500', 'g_qn > 1000 && g_stop_at >= g_qn']),
         dict(id='C20.appender.writev', enforce='AsyncFileAppender_write_use_plain_writev', loops=True, backend='cadical', refute_unwind=1030, covers=['g_in > 3000 && g_f < g_in && g_f > 2000']),
